@@ -240,6 +240,23 @@ def translate(repo):
     code, _ = result(pmod, POP, "Population", "topk", {**SELF, fn.args.args[1].arg: ("k", "nat")}, orders=["order"], index_ty="idx")
     out.append(f"Definition gen_topk (mx : bool) (p : pop) (k : nat) (order : list nat) : pop :=\n  {code}.\n")
     fns += [f"{POP}:Population.{m}" for m in ("__getitem__", "merge", "topk")]
+    # from_individuals / to_individuals: genome and fitness of an individual travel together, in order; the problem is the individuals' own
+    from .lazy import canon as _canon
+    fn = find_def(pmod, "from_individuals", "Population")
+    r = ret_of(fn, POP)
+    a1 = fn.args.args[1].arg
+    got = ast.unparse(_canon(Inliner(fn, POP).inline(r.value, r)))
+    if got not in (f"cls(np.array([_c0.genome for _c0 in {a1}], dtype=np.float64), np.array([_c0.fitness for _c0 in {a1}], dtype=np.float64), {a1}[0].problem)",
+                   f"Population(np.array([_c0.genome for _c0 in {a1}], dtype=np.float64), np.array([_c0.fitness for _c0 in {a1}], dtype=np.float64), {a1}[0].problem)"):
+        raise Unsupported(f"{POP}:{fn.lineno}: Population.from_individuals is not Population(genomes of the individuals, their fitness values, their problem): {got[:160]}")
+    out.append("Definition gen_from_individuals (inds : list (G * Z)) : pop := mkpop (map fst inds) (map snd inds).\n")
+    fn = find_def(pmod, "to_individuals", "Population")
+    r = ret_of(fn, POP)
+    got = ast.unparse(_canon(Inliner(fn, POP).inline(r.value, r)))
+    if got != "[Individual(_c0, self.problem, _c0_1) for _c0, _c0_1 in zip(self.genomes, self.fitnesses)]":
+        raise Unsupported(f"{POP}:{fn.lineno}: Population.to_individuals is not [Individual(genome, self.problem, fitness) for genome, fitness in zip(genomes, fitnesses)]: {got[:160]}")
+    out.append("Definition gen_to_individuals (p : pop) : list (G * Z) := combine (pg p) (pf p).\n")
+    fns += [f"{POP}:Population.from_individuals", f"{POP}:Population.to_individuals"]
 
     # update_genome: self.genomes[M] = new[M] ; self.fitnesses[M] = np.nan   (either order), M = the rows whose genome changed
     fn = find_def(pmod, "update_genome", "Population")
